@@ -25,11 +25,51 @@ def symbols_containers(f):
     return out
 
 
+def _check_arity_direct(ctx, rep, f, rule):
+    """positions of a right-hand side read directly (symbols = rule.alternative.symbols; (symbols[0], symbols[1])) or a
+    right-hand side unpacked directly need len(symbols) == k known at the use"""
+    n = 0
+    for g in [f] + list(f.nested.values()):
+        gx = ctx.facts(g)
+        rhs_names = {}
+        for st in walk_no_nested(g.node):
+            if isinstance(st, ast.Assign) and len(st.targets) == 1 and isinstance(st.targets[0], ast.Name) and _is_symbols_expr(st.value):
+                rhs_names[st.targets[0].id] = st
+        groups = {}
+        for x in walk_no_nested(g.node):
+            if isinstance(x, ast.Subscript) and isinstance(x.ctx, ast.Load) and isinstance(x.slice, ast.Constant) and isinstance(x.slice.value, int) \
+                    and ((isinstance(x.value, ast.Name) and x.value.id in rhs_names) or _is_symbols_expr(x.value)):
+                groups.setdefault(u(x.value), []).append(x)
+        for src, uses in sorted(groups.items()):
+            n += 1
+            bad = None
+            ks = set()
+            for x in uses:
+                k = None
+                st_id = gx.stmt_of_expr(x)
+                for a in gx.guard_atoms(st_id) if st_id is not None else []:
+                    if a[0] == 'lencmp' and a[1] == src and ((a[3] is True and a[2][0] == 'Eq') or (a[3] is False and a[2][0] == 'NotEq')):
+                        k = a[2][1]
+                if k is None and st_id is not None:
+                    for root in gx._own_roots(gx.cfg.node[st_id]):
+                        for e, pol in _local_guards(root, x):
+                            k = _len_test(e, pol, src) if k is None else k
+                if k is None or not (-k <= x.slice.value < k):
+                    bad = x
+                    break
+                ks.add(k)
+            if bad is not None:
+                rep.violates(rule, g, bad, 'position {} of the right-hand side {} (of length 0, 1 or 2 in a grammar in normal form) is read without a len({}) == k test that covers it'.format(bad.slice.value, src, src))
+            else:
+                rep.holds(rule, g, uses[0], 'positions of the right-hand side `{}` are read only where len({}) == {} is known'.format(src, src, sorted(ks)[0]))
+    return n
+
+
 def check_arity(ctx, rep, f, rule='R-ARITY'):
     """Unpacking an element of a map of right-hand sides into k names requires a dominating len == k test."""
     conts = symbols_containers(f)
     if not conts:
-        return 0
+        return _check_arity_direct(ctx, rep, f, rule)
     fx = ctx.facts(f)
     guarded_len = {}
     for cname, app in conts.items():
@@ -326,6 +366,38 @@ def check_slots(ctx, rep, f, rule='R-SLOT'):
                 atoms = must_atoms(fx).get(nid, frozenset()) if nid is not None else frozenset()
                 tx = u(node)
                 ok = any((a[0] == 'truthy' and a[3] is True and a[1] == tx) or (a[0] == 'empty' and a[3] is False and a[1] == tx) or (a[0] == 'in' and a[3] is True and a[2] == tx) for a in atoms)
+                if not ok and isinstance(node.slice, ast.Name):
+                    ix = node.slice.id
+
+                    def filtered_comp(comp):
+                        # a comprehension over the indices that keeps only the non-empty slots:  ... for i in range(n) if C[i]
+                        for g0 in comp.generators:
+                            if isinstance(g0.target, ast.Name):
+                                want = '{}[{}]'.format(C, g0.target.id)
+                                for c0 in g0.ifs:
+                                    if any((a[0] == 'truthy' and a[3] is True and a[1] == want) or (a[0] == 'empty' and a[3] is False and a[1] == want) for a in atoms_of(c0, True)):
+                                        return g0.target.id
+                        return None
+                    for owner in ast.walk(f.node):
+                        # (a) the read sits in such a comprehension itself
+                        if isinstance(owner, (ast.ListComp, ast.SetComp, ast.DictComp, ast.GeneratorExp)) and any(x is node for x in ast.walk(owner)) and filtered_comp(owner) == ix:
+                            ok = True
+                        # (b) the index ranges over a collection of indices that was built by such a comprehension
+                        its = []
+                        if isinstance(owner, ast.For) and any(x is node for b0 in owner.body for x in ast.walk(b0)):
+                            its.append((owner.target, owner.iter))
+                        if isinstance(owner, (ast.ListComp, ast.SetComp, ast.DictComp, ast.GeneratorExp)) and any(x is node for x in ast.walk(owner)):
+                            its += [(g0.target, g0.iter) for g0 in owner.generators]
+                        for tg0, it0 in its:
+                            if isinstance(tg0, ast.Name) and tg0.id == ix and isinstance(it0, ast.Name):
+                                defs0 = [d0 for d0 in walk_no_nested(f.node) if isinstance(d0, (ast.Assign, ast.AnnAssign)) and getattr(d0, 'value', None) is not None
+                                         and any(isinstance(t0, ast.Name) and t0.id == it0.id for t0 in (d0.targets if isinstance(d0, ast.Assign) else [d0.target]))]
+                                if len(defs0) == 1 and isinstance(defs0[0].value, (ast.ListComp, ast.SetComp, ast.DictComp)):
+                                    v0 = defs0[0].value
+                                    kx = filtered_comp(v0)
+                                    key0 = v0.key if isinstance(v0, ast.DictComp) else v0.elt
+                                    if kx is not None and u(key0) == kx:
+                                        ok = True
             elif isinstance(gen, tuple) and gen[0] == 'loop':
                 nid = fx.stmt_of_expr(node)
                 loop = gen[1]
@@ -478,7 +550,15 @@ def check_tm_budget(ctx, rep, fs, f_words, rule='R-TM.budget'):
         rep.violates(rule, fs[0], 'default max_steps', 'the entry points have different default step budgets: {}'.format(defaults))
     for c in ctx.prog.calls_in(f_words):
         if ctx.callee_name(f_words, c) == 'tm_accepts_word':
-            passed = [u(a) for a in c.args[2:]] + [u(k.value) for k in c.keywords if k.arg == 'max_steps']
+            # bind the arguments to the parameters of the acceptance test as Python does: the budget must arrive in ITS budget
+            # parameter (a flag inserted before max_steps would swallow a positional budget)
+            cal = ctx.callee(f_words, c)
+            passed = [u(k.value) for k in c.keywords if k.arg == 'max_steps']
+            if cal is not None:
+                pnames = [p.arg for p in cal.pos_params]
+                passed += [u(a) for a, pn in zip(c.args, pnames) if pn == 'max_steps']
+            else:
+                passed += [u(a) for a in c.args[2:]]
             if 'max_steps' in passed:
                 rep.holds(rule, f_words, c, 'the enumerator forwards its step budget to the acceptance test')
             else:
@@ -767,4 +847,47 @@ def check_index_agreement(ctx, rep, f, rule='R-INDEX'):
             else:
                 rep.violates(rule, f, s1, 'the table {0} is filled by positions in `{1}`, but {2}, which receives it, reads it by positions in `{3}`: entry (i, j) stands for one pair of states here and for another pair there, so the wrong states are merged'.format(
                     a.id, c1.replace('$0', f.pos_params[0].arg), g.name, c2.replace('$0', g.pos_params[0].arg)))
+    return n
+
+
+# ---- R-SYM.count: counters that shadow a relation are kept at every place where the relation grows ---------------------
+
+def check_paired_bookkeeping(ctx, rep, f, rule='R-SYM.count'):
+    """`matching[q1, q2] = True` marks a pair; a function that also keeps per-state COUNTERS of partners (`partners1[q1] += 1`)
+    to decide one-to-one-ness must bump them at EVERY place where a pair is marked.  A pair that is marked without being
+    counted (typically the initial pair, set up before the loop) has a state that can receive a second partner unnoticed.
+    Cross-check of the marking sites: all of them are followed, in their own block, by increments of the same counters."""
+    marks = {}
+    for blk in ast.walk(f.node):
+        for fld in ('body', 'orelse'):
+            lst = getattr(blk, fld, None)
+            if not isinstance(lst, list):
+                continue
+            for i, st in enumerate(lst):
+                if isinstance(st, ast.Assign) and len(st.targets) == 1 and isinstance(st.targets[0], ast.Subscript) and isinstance(st.targets[0].value, ast.Name) \
+                        and isinstance(st.value, ast.Constant) and st.value.value is True:
+                    M = st.targets[0].value.id
+                    counters = set()
+                    for later in lst[i + 1:]:
+                        if isinstance(later, ast.AugAssign) and isinstance(later.op, ast.Add) and isinstance(later.target, ast.Subscript) and isinstance(later.target.value, ast.Name) \
+                                and isinstance(later.value, ast.Constant) and later.value.value == 1:
+                            counters.add(later.target.value.id)
+                    marks.setdefault(M, []).append((st, counters))
+    n = 0
+    for M, sites in sorted(marks.items()):
+        allc = set().union(*[c for _, c in sites])
+        if not allc or len(sites) < 2:
+            continue
+        # the counters must be read in a test somewhere (they decide something)
+        decided = any(isinstance(x, ast.Compare) and any(isinstance(y, ast.Subscript) and isinstance(y.value, ast.Name) and y.value.id in allc for y in ast.walk(x)) for x in walk_no_nested(f.node))
+        if not decided:
+            continue
+        n += 1
+        bad = [(st, allc - c) for st, c in sites if allc - c]
+        if bad:
+            st, missing = bad[0]
+            rep.violates(rule, f, st, 'the pair marked by `{}` is not counted in {} although every other marking of {} is: a state of this pair can get a second partner without the count exceeding 1, so a relation that is not one-to-one passes'.format(
+                u(st), sorted(missing), M))
+        else:
+            rep.holds(rule, f, sites[0][0], 'every marking of {} is followed by the increments of {}'.format(M, sorted(allc)))
     return n
